@@ -203,6 +203,47 @@ Injections == <<
 >>
 
 -----------------------------------------------------------------------------
+(* "At every applicable site": the site-dependent classes are injected       *)
+(* mechanically at EVERY field of EVERY record of a base that also has       *)
+(* fields at the boundary indices (128, 254, 255), top level and inline in   *)
+(* union branches, under each type wrapper.                                  *)
+EdgeM == Ms("Edge", << FI(1, "a", P("bool")), FI(128, "b", R("Point")), FI(254, "c", A(R("Color"))), FI(255, "d", M("string", R("Point"))) >>)
+EdgeU == Un("EdgeU", << Br(1, St("EA", << F("p", R("Point")), F("q", P("bool")) >>)), Br(255, Ms("EB", << FI(7, "r", P("bool")), FI(255, "q", R("Color")) >>)) >>)
+Base2 == Base \o << EdgeM, EdgeU >>
+Wrap(w, t) == CASE w = 1 -> t [] w = 2 -> A(t) [] w = 3 -> M("string", t) [] w = 4 -> A(M("guid", A(t)))
+WrapName == << "plain", "array element", "map value", "array of map of array" >>
+With2(i, d) == [Base2 EXCEPT ![i] = d]
+IsRec(d) == d.k \in {"struct", "message"}
+FieldSite(d, j) == d.k \o " " \o d.name \o " field " \o d.fields[j].name \o (IF d.k = "message" THEN " (index " \o ToString(d.fields[j].idx) \o ")" ELSE "")
+SInj(class, site, where, items) == [class |-> class, site |-> site, where |-> where, items |-> items]
+\* apply f to record d sitting at top level position i, or inline in branch b of the union at position i
+TopSites == SelectSeq([i \in 1..Len(Base2) |-> i], LAMBDA i : IsRec(Base2[i]))
+BranchSites == FlattenSeq([i \in 1..Len(Base2) |-> IF Base2[i].k = "union" THEN [b \in 1..Len(Base2[i].branches) |-> <<i, b>>] ELSE <<>>])
+RecAt(site) == IF Len(site) = 1 THEN Base2[site[1]] ELSE Base2[site[1]].branches[site[2]].def
+PutAt(site, d) == IF Len(site) = 1 THEN With2(site[1], d) ELSE With2(site[1], SetBranchDef(Base2[site[1]], site[2], d))
+AllRecSites == [i \in 1..Len(TopSites) |-> << TopSites[i] >>] \o BranchSites
+WhereOf(site) == IF Len(site) = 1 THEN "top" ELSE "branch"
+SiteInjections ==
+  FlattenSeq([s \in 1..Len(AllRecSites) |->
+    LET site == AllRecSites[s]  d == RecAt(site)  n == Len(d.fields) IN
+      \* an undefined type at every field under every wrapper
+      FlattenSeq([j \in 1..n |-> [w \in 1..4 |->
+          SInj("reference to an undefined type", WrapName[w] \o " at " \o FieldSite(d, j), WhereOf(site), PutAt(site, SetFieldT(d, j, Wrap(w, Nope))))]])
+      \* every later field renamed like every earlier one
+      \o FlattenSeq([jj \in 1..(n-1) |-> LET j == jj + 1 IN [i \in 1..(j-1) |->
+          SInj("duplicate field name", FieldSite(d, j) \o " renamed like field " \o ToString(i), WhereOf(site), PutAt(site, SetFieldName(d, j, d.fields[i].name)))]])
+      \o (IF d.k # "message" THEN <<>> ELSE
+          \* every later message field re-indexed like every earlier one; every field at index zero
+          FlattenSeq([jj \in 1..(n-1) |-> LET j == jj + 1 IN [i \in 1..(j-1) |->
+              SInj("duplicate message index", FieldSite(d, j) \o " re-indexed like field " \o ToString(i), WhereOf(site), PutAt(site, SetFieldIdx(d, j, d.fields[i].idx)))]])
+          \o [j \in 1..n |-> SInj("message index zero", FieldSite(d, j), WhereOf(site), PutAt(site, SetFieldIdx(d, j, 0)))])])
+  \* every later union branch re-indexed like every earlier one
+  \o FlattenSeq([i \in 1..Len(Base2) |-> IF Base2[i].k # "union" THEN <<>> ELSE
+        FlattenSeq([bb \in 1..(Len(Base2[i].branches)-1) |-> LET b == bb + 1 IN [a \in 1..(b-1) |->
+            SInj("duplicate union index", "union " \o Base2[i].name \o " branch " \o ToString(b) \o " re-indexed like branch " \o ToString(a), "top",
+                 With2(i, [Base2[i] EXCEPT !.branches[b].idx = Base2[i].branches[a].idx]))]])])
+
+-----------------------------------------------------------------------------
 (* Recursion: struct graphs.  Node i is struct Ni; an edge i->j is a field    *)
 (* of Ni whose type reaches Nj by the edge kind.                              *)
 MaxN == IF Tier = "thorough" THEN 3 ELSE 3
@@ -232,28 +273,30 @@ GraphCase(i, n) ==   \* i 0-based within the cases of size >= n
 
 -----------------------------------------------------------------------------
 Init == part = "" /\ ci = 0
-Count(p) == CASE p = "base" -> 1 [] p = "inject" -> Len(Injections) [] p = "graph" -> GraphCount
-Next == \/ part = "" /\ part' \in {"base", "inject", "graph"} /\ UNCHANGED ci
+Count(p) == CASE p = "base" -> 2 [] p = "inject" -> Len(Injections) [] p = "sites" -> Len(SiteInjections) [] p = "graph" -> GraphCount
+Next == \/ part = "" /\ part' \in {"base", "inject", "sites", "graph"} /\ UNCHANGED ci
         \/ part # "" /\ ci = 0 /\ ci' \in 1..Count(part) /\ UNCHANGED part
 IsCase == ci > 0
 
 GC == GraphCase(ci - 1, 1)
-Items == CASE part = "base" -> Base
+Items == CASE part = "base" -> (IF ci = 1 THEN Base ELSE Base2)
            [] part = "inject" -> Injections[ci].items
+           [] part = "sites" -> SiteInjections[ci].items
            [] part = "graph" -> GraphItems(GC.n, GC.g, GC.kind)
-Class == CASE part = "base" -> "" [] part = "inject" -> Injections[ci].class [] part = "graph" -> "struct necessarily contains itself"
-Site  == CASE part = "base" -> "" [] part = "inject" -> Injections[ci].site
+Class == CASE part = "base" -> "" [] part = "inject" -> Injections[ci].class [] part = "sites" -> SiteInjections[ci].class [] part = "graph" -> "struct necessarily contains itself"
+Site  == CASE part = "base" -> "" [] part = "inject" -> Injections[ci].site [] part = "sites" -> SiteInjections[ci].site
            [] part = "graph" -> ToString(GC.n) \o " structs, graph " \o ToString(GC.g) \o ", edges " \o GC.kind
 \* the specification's verdict; edges through arrays/maps are left open by the property's wording
 Expect == IF part = "graph" /\ GC.kind \in {"array", "map"} THEN "unspec"
           ELSE IF Violated(Items) = "" THEN "accept" ELSE "reject"
 
 \* the base is well-formed; each injection violates exactly the rule it is filed under
-BaseWellFormed == Violated(Base) = ""
-InjectionsIllFormed == (IsCase /\ part = "inject") => Violated(Items) = Class
+BaseWellFormed == Violated(Base) = "" /\ Violated(Base2) = ""
+InjectionsIllFormed == (IsCase /\ part \in {"inject", "sites"}) => Violated(Items) = Class
+Where == IF part = "sites" THEN SiteInjections[ci].where ELSE ""
 \* graphs: direct edges are rejected iff the graph has a cycle; message/union edges never
 GraphVerdicts == (IsCase /\ part = "graph" /\ GC.kind \in {"message", "union"}) => Violated(Items) = ""
 
 Export == IsCase => PrintT("@@PCASE " \o ToJson([part |-> part, ci |-> ci, tokens |-> Tokens(Items), file |-> [x |-> 0],
-                                                  extra |-> [class |-> Class, site |-> Site, expect |-> Expect]]))
+                                                  extra |-> [class |-> Class, site |-> Site, where |-> Where, expect |-> Expect]]))
 =============================================================================
